@@ -161,12 +161,17 @@ def unmodelled(ans):
     return "Unmodelled" in t or '"fatal"' in t or "unmodelled" in t
 
 
-def closure_of(src):
-    """the function `f` of `src` as a closure over K1, K2 (reads of GLOB1 become reads of the cell K1)"""
-    body = src.replace("GLOB1", "K1")
+def closure_of(src, empty=False):
+    """the function `f` of `src` as a closure: reads of GLOB1 become reads of a variable of an enclosing function —
+    K1 (the model's host supplies the same cell: 31), or, with `empty`, K0, a variable the enclosing function never
+    gets to bind: the cell is empty when `f` is called, reading it raises NameError where it is read"""
+    name = "K0" if empty else "K1"
+    body = src.replace("GLOB1", name)
     lines = body.rstrip("\n").split("\n")
-    return "def make_f():\n    K1 = 31\n    K2 = 32\n%s\n    return f\nf = make_f()\n" % "\n".join(
-        "    " + l if l else l for l in lines)
+    inner = "\n".join("    " + l if l else l for l in lines)
+    if empty:
+        return "def make_f():\n%s\n    return f\n    K0 = 30\nf = make_f()\n" % inner
+    return "def make_f():\n    K1 = 31\n    K2 = 32\n%s\n    return f\nf = make_f()\n" % inner
 
 
 def gen_program(rng, features=EXEC_FEATURES, weights=None):
@@ -178,8 +183,8 @@ def gen_program(rng, features=EXEC_FEATURES, weights=None):
     fn["generator"] = gen
     if rng.random() < 0.25 and "GLOB1" in src:
         # a closure: some reads of globals become reads of variables of an enclosing function (the model's host
-        # supplies the same cells: K1 = 31, K2 = 32)
-        src = closure_of(src)
+        # supplies the same cells: K1 = 31, K2 = 32) — now and then of one whose cell is still empty
+        src = closure_of(src, empty=rng.random() < 0.3)
     args, script, gscript = progrun.gen_inputs(rng, fn)
     if gen:
         gscript = [["next"]] + [op for op in (gscript or [])[1:] if op[0] in ("next", "send", "throw")]
